@@ -129,6 +129,8 @@ impl FunctionDefinition for CtxFn {
         let text = format!("{}|{}", seen.join(";"), n);
         Box::new(move |args| {
             let got = args.len();
+            // pull every argument (they are evaluated lazily)
+            for _ in args {}
             Some(LhsValue::Bytes(format!("{text}|{got}").into_bytes().into()))
         })
     }
